@@ -111,14 +111,16 @@ class Gen(object):
             return ('assign', rd, [self.bind()], form)
         if r < 0.58:
             return ('if', self.reads(0, 2), self.body(depth + 1, in_finally, no_ret),
-                    self.body(depth + 1, in_finally, no_ret) if self.rng.random() < 0.7 else [('pass',)])
+                    self.body(depth + 1, in_finally, no_ret) if self.rng.random() < 0.7 else [('pass',)],
+                    [self.bind()] if self.rng.random() < 0.2 else [])
         if r < 0.68:
             rd = self.reads(0, 2)
             self.loop_depth += 1
             b = self.body(depth + 1, in_finally, no_ret)
             self.loop_depth -= 1
             return ('while', rd, b,
-                    self.body(depth + 1, in_finally, no_ret, 1, 2) if self.rng.random() < 0.4 else [('pass',)])
+                    self.body(depth + 1, in_finally, no_ret, 1, 2) if self.rng.random() < 0.4 else [('pass',)],
+                    [self.bind()] if self.rng.random() < 0.3 else [])
         if r < 0.80:
             nb = self.rng.choice([1, 1, 1, 2])
             bs = []
@@ -219,9 +221,11 @@ def to_coq(n):
     if k == 'with':
         return seq(rd_terms(n[1]) + bd_terms(n[2]) + [body_coq(n[3])])
     if k == 'if':
-        return seq(rd_terms(n[1]) + ['(Branch %s %s)' % (body_coq(n[2]), body_coq(n[3]))])
+        tb = n[4] if len(n) > 4 else []
+        return seq(rd_terms(n[1]) + bd_terms(tb) + ['(Branch %s %s)' % (body_coq(n[2]), body_coq(n[3]))])
     if k == 'while':
-        return '(While %s %s %s)' % (seq(rd_terms(n[1])), body_coq(n[2]), body_coq(n[3]))
+        tb = n[4] if len(n) > 4 else []
+        return '(While %s %s %s)' % (seq(rd_terms(n[1]) + bd_terms(tb)), body_coq(n[2]), body_coq(n[3]))
     if k == 'for':
         return seq(rd_terms(n[1]) + ['(For %s %s %s)' % (seq(bd_terms(n[2])), body_coq(n[3]), body_coq(n[4]))])
     if k == 'try':
@@ -268,8 +272,11 @@ class Renderer(object):
     def args(self, reads):
         return ', '.join(self.rd(r, x) for r, x in reads)
 
-    def call(self, reads, fn='g'):
-        return '%s(%s)' % (fn, self.args(reads))
+    def call(self, reads, fn='g', walrus=()):
+        a = [self.rd(r, x) for r, x in reads]
+        for d, x in walrus:
+            a.append('(%s := %s)' % (self.tgt(d, x), ('_b(dict(%s=%d))' % (x, d)) if self.ins else 'g()'))
+        return '%s(%s)' % (fn, ', '.join(a))
 
     def tagged(self, binds, reads):
         """expression producing a fresh tagged object after evaluating the reads"""
@@ -358,13 +365,15 @@ class Renderer(object):
                 self.emit(ind, 'with cm(%s) as %s:' % (self.args(reads), self.tgt(d, x)))
             self.body(body, ind + 1)
         elif k == 'if':
-            self.emit(ind, 'if %s:' % (self.call(n[1], '_ob') if ins else self.call(n[1], 'c')))
+            tb = n[4] if len(n) > 4 else []
+            self.emit(ind, 'if %s:' % (self.call(n[1], '_ob', tb) if ins else self.call(n[1], 'c', tb)))
             self.body(n[2], ind + 1)
             if n[3] != [('pass',)]:
                 self.emit(ind, 'else:')
                 self.body(n[3], ind + 1)
         elif k == 'while':
-            self.emit(ind, 'while %s:' % (self.call(n[1], '_ow') if ins else self.call(n[1], 'c')))
+            tb = n[4] if len(n) > 4 else []
+            self.emit(ind, 'while %s:' % (self.call(n[1], '_ow', tb) if ins else self.call(n[1], 'c', tb)))
             self.body(n[2], ind + 1)
             if n[3] != [('pass',)]:
                 self.emit(ind, 'else:')
